@@ -479,7 +479,8 @@ fn run(batches: &str, root: &str, entries: u32, flagbits: u32, out: &mut Out) {
     a.reset();
     b.reset();
     let sqpoll = flagbits & IoUringParamFlags::IORING_SETUP_SQPOLL.bits() != 0;
-    let mut ring: IoUring = match setup_io_uring(entries, param_flags(flagbits), 0, 100) {
+    // a polling thread goes idle after 50 ms (sq_thread_idle): batches that sleep first find it asleep
+    let mut ring: IoUring = match setup_io_uring(entries, param_flags(flagbits), 0, 50) {
         Ok(r) => r,
         Err(e) => {
             out.ev(&json!({"ev":"setup_failed","entries":entries,"flags":flagbits,"err":format!("{e}")}));
@@ -512,6 +513,9 @@ fn run(batches: &str, root: &str, entries: u32, flagbits: u32, out: &mut Out) {
         }
         let ops = bt["ops"].as_array().unwrap();
         let n = ops.len();
+        if let Some(ms) = bt["sleep_ms"].as_u64() {
+            std::thread::sleep(std::time::Duration::from_millis(ms));
+        }
         if sqpoll {
             // the polling thread posts completions before it publishes the consumed head: wait until the submission ring
             // is drained (flush returns the number of unconsumed entries) so that "slot refused" means what it says
@@ -1061,8 +1065,17 @@ fn geometry(ring: &IoUring, requested: u32, flagbits: u32) -> Value {
     if fd >= 0 {
         unsafe { libc::close(fd as i32) };
     }
+    // every ring pointer the wrapper derived, as an offset into its mapping, against the offset the kernel reports for
+    // exactly that field: [sq head, tail, flags, dropped, array, cq head, tail, overflow, cqes, flags]
+    let w_off: Vec<i64> = ring.verif_ring_pointer_offsets().iter().map(|o| if *o == usize::MAX { -1 } else { (*o).min(1 << 40) as i64 }).collect();
+    let k_off: Vec<i64> = vec![p[10], p[11], p[14], p[15], p[16], p[20], p[21], p[24], p[25]].into_iter().map(i64::from)
+        .chain(std::iter::once(if p[26] == 0 { -1 } else { i64::from(p[26]) })).collect();
+    // the submission index array as set-up left it: entry i must name submission entry i
+    let bad_ix = (0..se).find(|i| unsafe { ring.verif_sq_index_array(*i) } != *i);
     json!({"ev":"geometry","requested":requested,"flags":flagbits,"twin_ok":fd >= 0,
-        "w_sq_entries":se,"w_sq_mask":sm,"w_cq_entries":ce,"w_cq_mask":cm,"k_sq_entries":p[0],"k_cq_entries":p[1]})
+        "w_sq_entries":se,"w_sq_mask":sm,"w_cq_entries":ce,"w_cq_mask":cm,"k_sq_entries":p[0],"k_cq_entries":p[1],
+        "w_off":w_off,"k_off":k_off,"array_ok":bad_ix.is_none(),
+        "array_first_bad":bad_ix.map_or(-1, i64::from),"array_head":(0..se.min(8)).map(|i| unsafe { ring.verif_sq_index_array(i) }).collect::<Vec<u32>>()})
 }
 
 fn mark(s: &str) {
